@@ -50,6 +50,13 @@ CHECKS = {
         "Trusted: circle model and polyline length in mc/props/c07.py + mc/blockmesh_ref.py; convention that face edge i runs from point i to i+1.",
         "DESIGN.md 5 C07",
     ),
+    "C12": (
+        "model_checking",
+        "explicit-state breadth-first search over call histories of one live Mesh (write/assemble/clear/backport/delete/move/modify_patch/set_default_patch/merge_patches) with replay on fresh real objects, de-duplication by a canonical key of the complete library state, differential oracle against a freshly built mesh of the declaration model's normal form at every write transition",
+        "All enabled histories up to depth 4 (thorough 6) on a 2-box and a 3-box model (outer patches, an interface patch pair that can be merged, one shared and one private vertex to move); the file written by the history must equal (parsed, order of patches aside) the file written by a fresh mesh built from the declaration model: clear+assemble and idle backport are no-ops, backport after moves updates exactly the owners of the moved vertices also when operations are deleted, modify/default/merge survive, second write identical.",
+        "Trusted: declaration model in mc/props/c12.py (incl. which operation corners own a vertex under merged patches), foamdict reader. delete only while un-assembled, moves only while assembled.",
+        "DESIGN.md 5 C12",
+    ),
     "C02": (
         "model_checking",
         "stateless model checking of the implementation: choice-point explorer over set iteration orders (iterative deviation bounding) x exhaustive insertion orders / corner numberings / chop placements of small lattice assemblies, edge-family reference model",
